@@ -199,17 +199,37 @@ class FakeClient:
         pass
 
 
+def _root_draw_counts(draws):
+    out = {}
+    for purpose, v in draws.log:
+        if purpose == 'root':
+            out[v] = out.get(v, 0) + 1
+    return out
+
+
 class FakeFS:
     def __init__(self):
         self.writes = {}
+        self.yields = []       # generated: how often each storage call suspends (real storage calls are network round trips)
+        self.yi = 0
+
+    async def _suspend(self):
+        import asyncio
+        if self.yields:
+            k = self.yields[self.yi % len(self.yields)]
+            self.yi += 1
+            for _ in range(k):
+                await asyncio.sleep(0)
 
     async def _get_fs(self, uri):
+        await self._suspend()
         return self
 
     async def makedirs(self, path, exist_ok=False):
         pass
 
     async def write(self, path, data):
+        await self._suspend()
         self.writes[path] = data
 
     async def close(self):
@@ -339,6 +359,8 @@ class Session:
     def fresh(self, case, guards):
         self.draws.reset(case.get('tok', []), case.get('uid', []), guards)
         self.fs.writes.clear()
+        self.fs.yields = list(case.get('yields', []))
+        self.fs.yi = 0
         del self.client.batches[:]
         del self.uploads[:]
 
@@ -568,8 +590,10 @@ def _run_case(case, sess, guards=frozenset()):
                 if kind == 'input':
                     r = new_res('in', path=PATHS[op[1] % len(PATHS)])
                     draws.purpose = 'root'
+                    n_draws = len(draws.log)
                     r.obj = b.read_input(r.path)
-                    r.root = draws.log[-1][1]
+                    # the root normally is the random string just drawn; if the code names it otherwise, read it off the resource
+                    r.root = draws.log[-1][1] if len(draws.log) > n_draws else posixpath.dirname(str(r.obj._value)).split('/')[-1]
                     if r.root in roots_used:
                         sess.causes.append(('input-root-collision',
                                             f'read_input({r.path!r}) drew root {r.root!r}, already used by an earlier input: '
@@ -596,8 +620,13 @@ def _run_case(case, sess, guards=frozenset()):
                     gid[0] += 1
                     g = MGrp(gid[0], None, None)
                     draws.purpose = 'root'
+                    n_draws = len(draws.log)
                     g.obj = b.read_input_group(**members)
-                    g.root = draws.log[-1][1]
+                    if len(draws.log) > n_draws:
+                        g.root = draws.log[-1][1]
+                    else:
+                        any_member = next(iter(g.obj._resources.values()))
+                        g.root = posixpath.dirname(str(any_member._value)).split('/')[-1]
                     if g.root in roots_used:
                         sess.causes.append(('input-root-collision',
                                             f'read_input_group drew root {g.root!r}, already used by an earlier input: '
@@ -1258,7 +1287,10 @@ def _run_case(case, sess, guards=frozenset()):
                     fail('input-group-basename-collision', 'distinct resources never share a path',
                          f'{a.label()} and {c.label()} share {where} path {pth}: members of one read_input_group with '
                          f'equal basenames are both placed at <root>/<basename>')
-                elif a.kind in INPUTLIKE and c.kind in INPUTLIKE:
+                elif a.kind in INPUTLIKE and c.kind in INPUTLIKE and \
+                        any(v in pth.split('/') and n >= 2 for v, n in _root_draw_counts(draws).items()):
+                    # the known finding is about two *random draws* that coincide (harness-controlled RNG); inputs that share a path
+                    # although no drawn root occurred twice are a different defect and keep the generic signature below
                     fail('input-root-collision', 'distinct resources never share a path',
                          f'{a.label()} and {c.label()} share {where} path {pth}: same random root and basename')
                 else:
@@ -1671,6 +1703,9 @@ def strategy():
             nb += 1
         ops += draw(st.lists(op, max_size=8))
         case = {'tok': draw(st.lists(draw_v, max_size=8)), 'uid': draw(st.lists(draw_v, max_size=4)), 'ops': ops}
+        if draw(st.integers(0, 2)) == 0:
+            # storage calls suspend: the compile / upload tasks of ServiceBackend._async_run interleave under a generated schedule
+            case['yields'] = draw(st.lists(st.integers(0, 2), min_size=1, max_size=6))
         if npy or any(o[0] == 'pyjob' for o in ops):
             case['pyimg'] = draw(st.integers(0, 1))
         return case
